@@ -215,6 +215,7 @@ specs["C12"] = {"runs": [
     run(CMD + "balance:Harness_compose_period", Q, {"E": 2}, "real", cover=["composed"]),
     run(CMD + "balance:Harness_compose_stream", QT, {}, "fp", cover=["composed"], note="through the real parser: log1 ++ log2 as text, symbolic dates, empty day blocks"),
     run("cmd/hranoprovod-cli:Harness_app_compose", QT, {}, "fp", cover=["composed"], note="whole application: 7 per-day command variants (default and left-aligned templates rendered, old reporter, csv log, print, single food, single element) on log1 ++ log2 vs log1 and log2: day blocks with symbolic dates (any order, same date), notes, an empty day, with or without --begin/--end"),
+    run("cmd/hranoprovod-cli:Harness_app_compose", QT, {}, "fp", cover=["composed"], concrete_fmt=True, note="the same with the (concrete) amounts rendered natively, so that code inspecting the rendered bytes (column alignment over the whole report) runs"),
     run("cmd/hranoprovod-cli:Harness_app_partial_report", QT, {}, "fp", owned=["earlier-days-shown-as-before"], cover=["ran"], note="appending a day with a malformed line does not change what is shown for the earlier days (six per-day commands)"),
     run("cmd/hranoprovod-cli:Harness_app_period", Q, {"R": 3, "command": 8}, cover=["ran"], note="a period report (`report quantity`) over three days in any order = the report of the selected days: days are independent"),
     run("cmd/hranoprovod-cli:Harness_app_twice", QT, {}, "real", "repo", owned=["same-output", "same-error-status"], cover=["ran-twice"], note="what is shown for a day does not depend on the visiting order of maps (names differing only in case, a day of 36 lines)"),
